@@ -333,6 +333,25 @@ class Gen:
                 self.shadow_item()
         self.p.label(l)
 
+    def call_pattern(self):
+        """a subroutine called from two or three call sites, returning with jalr through ra"""
+        r = self.rng
+        if not self.room(14):
+            return self.alu()
+        f = self.p.new_label()
+        end = self.p.new_label()
+        for _ in range(r.randint(2, 3)):
+            self.p.ins('jal', 1, label=f)
+            for _ in range(r.randint(0, 2)):
+                self.alu()
+        self.p.ins('j', label=end)
+        self.p.label(f)
+        for _ in range(r.randint(1, 3)):
+            self.alu()
+        self.p.ins('jalr', r.choice([0, 0, self.dst()]), 1, imm=0)
+        self.p.label(end)
+        self.p.tags.add('call-return')
+
     def loop(self):
         r = self.rng
         if not self.free_cnt or not self.room(8):
@@ -503,13 +522,13 @@ class Gen:
             'touched': dict(alu=3, load=4, store=4, branch=1),
             'hazard': dict(alu=10, load=1),
             'waw': dict(alu=10),
-            'branch': dict(alu=5, branch=3, jump=1),
+            'branch': dict(alu=5, branch=3, jump=1, call=1),
             'shadow': dict(alu=3, branch=2, slowbranch=3, jump=2, load=1, store=1),
             'mem': dict(alu=3, load=4, store=4, branch=1, loop=1, setaddr=1),
             'stld': dict(alu=2, stld=5, load=1, store=1),
             'tail': dict(alu=4, load=1, store=1, branch=1),
-            'loops': dict(alu=4, loop=4, branch=2, jump=1),
-            'mixed': dict(alu=5, load=2, store=2, branch=2, slowbranch=1, jump=1, loop=1, stld=1),
+            'loops': dict(alu=4, loop=4, branch=2, jump=1, call=1),
+            'mixed': dict(alu=5, load=2, store=2, branch=2, slowbranch=1, jump=1, loop=1, stld=1, call=1),
             'err': dict(alu=6, branch=2),
         }[prof]
         kinds = list(weights)
@@ -545,6 +564,8 @@ class Gen:
                 self.loop()
             elif k == 'stld':
                 self.stld_pair()
+            elif k == 'call':
+                self.call_pattern()
         if prof in ('evict', 'evictlf'):
             self.evict_pattern()
         if prof == 'tail':
